@@ -16,7 +16,13 @@
 //!
 //! The library only uses `std`, so it also builds inside the `#![no_std]` statime crates
 //! (their harness roots do `extern crate std;`).
-#![allow(dead_code, unused_imports, unused_macros, clippy::all, clippy::pedantic)]
+#![allow(
+    dead_code,
+    unused_imports,
+    unused_macros,
+    clippy::all,
+    clippy::pedantic
+)]
 
 extern crate std;
 
@@ -273,7 +279,11 @@ impl Ctx {
     }
 
     pub fn set(&self, key: &str, n: u64) {
-        self.inner.lock().unwrap().counters.insert(key.to_string(), n);
+        self.inner
+            .lock()
+            .unwrap()
+            .counters
+            .insert(key.to_string(), n);
     }
 
     pub fn max(&self, key: &str, n: u64) {
@@ -405,7 +415,11 @@ impl Ctx {
 pub fn report_replay(id: &str, first: &str, second: &str, violates: bool) {
     loud_panics();
     println!();
-    println!("VERIF-REPLAY {id} deterministic={} violates={}", first == second, violates);
+    println!(
+        "VERIF-REPLAY {id} deterministic={} violates={}",
+        first == second,
+        violates
+    );
     println!("VERIF-REPLAY-OBS {id} {}", json_escape(first));
     println!("VERIF-DONE {id}");
 }
@@ -509,7 +523,12 @@ pub fn par_for(n: u64, chunk: u64, f: impl Fn(u64) + Sync) {
 
 /// Like `par_for` but each worker thread first builds a thread-local state with `init`
 /// (e.g. a tokio runtime), passed to `f` by mutable reference.
-pub fn par_for_with<S>(n: u64, chunk: u64, init: impl Fn() -> S + Sync, f: impl Fn(&mut S, u64) + Sync) {
+pub fn par_for_with<S>(
+    n: u64,
+    chunk: u64,
+    init: impl Fn() -> S + Sync,
+    f: impl Fn(&mut S, u64) + Sync,
+) {
     let next = AtomicU64::new(0);
     let nt = threads();
     let chunk = chunk.max(1);
